@@ -186,11 +186,12 @@ func c05Isolation(r *ev.Reporter) []string {
 		cl := 3
 		bound := 3*j.k + 3*cl + 2
 		res := cluster.IsolationRun(cluster.Config{N: 4, Rules: j.rs, Cache: 100}, isolated, j.pattern, j.rotation, j.k, bound+1)
-		if res.Broken != "" {
-			ev.Broken("C05 isolation run: %s", res.Broken)
-		}
 		mu.Lock()
 		defer mu.Unlock()
+		if res.Broken != "" { // no verdict for this run (a cap): the command stock ran out or the run could not continue
+			r.Cap(fmt.Sprintf("isolation run %s pattern=%v rotation=%v k=%d abandoned: %s", j.rs, j.pattern, j.rotation, j.k, res.Broken))
+			return
+		}
 		r.Count(1, int64(res.Events), 1, 1)
 		worst := 0
 		var late []string
